@@ -408,7 +408,9 @@ func K11(which int) *Entry {
 		return &Entry{Name: "k11c", File: f, Cfg: BaseConfig("VoidMap"), Tags: []string{"map-empty-msg"}}
 	case 4:
 		// by-value durations as oneof branches
-		m := WithOneofs(M("SpanPick", F("Name"), F("Text", In(0)), F("SpanInt", StdDurInt(), In(0)), F("SpanCast", Sc(ir.Int64), Cast("Duration"), In(0))), "Pick")
+		m := WithOneofs(M("SpanPick", F("Name"), F("Text", In(0)), F("SpanInt", StdDurInt(), In(0)), F("SpanCast", Sc(ir.Int64), Cast("Duration"), In(0)),
+			// branches that sort before and after the duration branches (the converters visit fields in sorted order)
+			F("Early", Sc(ir.Int64), In(0)), F("Zulu", In(0))), "Pick")
 		f := file("k11e", m)
 		AutoComments(f)
 		return &Entry{Name: "k11e", File: f, Cfg: BaseConfig("SpanPick"), Tags: []string{"oneof-by-value-duration"}}
